@@ -40,6 +40,6 @@ Deliverables, written to {out}/ :
                   PROPERTY as stated (observable behaviour), not merely that some internal value changed.
  3. meta.json   = {{"property": "{pid}", "summary": "...what was changed...", "needs": "...what specific input/sequence is needed to manifest...",
                   "files": [...], "ran": ["...commands you ran and their outcomes..."]}}
-Verify all of it yourself: run demo.py on the unchanged tree (git stash or a second checkout) -> exit 0; with the change -> non-zero; run both
+Verify all of it yourself (do NOT use `git stash`: the stash is shared between worktrees; instead save your change with `git diff > file`, `git checkout -- .`, and re-apply with `git apply file`): run demo.py on the unchanged tree -> exit 0; with the change -> non-zero; run both
 test suites with the change. When finished leave the worktree with the change applied (uncommitted). Report briefly what you did.
 Try to be subtle: prefer a bug whose trigger is NOT the most obvious example of the property.""")
